@@ -105,6 +105,24 @@ public:
         }
     }
 
+    // {expr for sym in base}: sym is bound
+    void bvisit(const ImageSet &x)
+    {
+        set_basic set_ = free_symbols(*x.get_expr());
+        set_.erase(x.get_symbol());
+        s.insert(set_.begin(), set_.end());
+        set_basic base_ = free_symbols(*x.get_baseset());
+        s.insert(base_.begin(), base_.end());
+    }
+
+    // {sym : condition}: sym is bound
+    void bvisit(const ConditionSet &x)
+    {
+        set_basic set_ = free_symbols(*x.get_condition());
+        set_.erase(x.get_symbol());
+        s.insert(set_.begin(), set_.end());
+    }
+
     void bvisit(const Basic &x)
     {
         for (const auto &p : x.get_args()) {
